@@ -176,6 +176,19 @@ def _run(case):
                 break
     if case["stat"]:
         _statistical(fails, x, mu, Sig, "statistical")
+        # keys derived from one key by split() are independent streams: draws made with the two halves must be uncorrelated
+        # (a sampler that re-seeds itself from part of the key data would tie them together)
+        ka, kb = jax.random.split(_key(case, case["seed2"]))
+        ok, xs = lib(fails, "sample_split_keys", lambda: (np.asarray(p.sample(ka, 50000)), np.asarray(p.sample(kb, 50000))))
+        if ok:
+            L = np.linalg.cholesky(Sig)
+            for r in range(R):
+                wa = np.linalg.solve(L[r], (xs[0][:, r, :] - mu[r]).T).T
+                wb = np.linalg.solve(L[r], (xs[1][:, r, :] - mu[r]).T).T
+                cc = (wa.T @ wb) / np.sqrt(wa.shape[0])
+                if np.max(np.abs(cc)) > 6 or np.array_equal(xs[0][:, r, :], xs[1][:, r, :]):
+                    fails.append(Failure("statistical:split_keys_dependent", f"draws made with the two halves of a split key are dependent (component {r}: {np.max(np.abs(cc)):.1f} s.e.)"))
+                    break
         return fails
     # structural: whitened draws == the key's standard-normal stream (as a multiset)
     L = np.linalg.cholesky(Sig)
